@@ -64,6 +64,9 @@ def conditions(tier):
     n = "arb1_FFGF"
     q.append(("one_arbitrary_piece_FFGF", gen_arbitrary(n, [("S1", "FFGF")], [(0, "S1")], sym_strands=False, body="gaps_any"), n, 900,
               "input F F G F, one arbitrary piece (may start/end anywhere, also beyond the scaffold), piece strand and texel symbolic"))
+    n = "arb1_FFF"
+    q.append(("one_arbitrary_piece_FFF_abutting", gen_arbitrary(n, [("S1", "FFF")], [(0, "S1")], sym_strands=False, body="gaps_any"), n, 900,
+              "input F F F (three directly abutting contigs), one arbitrary piece: e.g. only the middle contig is found and the two flanking left-overs are re-added next to each other"))
     src_q = HEAD + "".join(x[1] for x in q)
     for (nm, _, fn, to, bound) in q:
         out.append(Cond(nm, src_q, fn, to, bound, replay="replay_model", encodes=ENC))
